@@ -25,8 +25,9 @@
 //! Worlds per offset: `wide` = the full amount list on histories of length 2 from the seeds
 //! {empty, donated} and {2^k deposited + donated}; `deep` = a narrow amount list (1, 7 / 1, 10^o+1 /
 //! 1, max_withdraw / 1, max_redeem, donate 7) on histories of length 4 (quick) resp. 5 (thorough,
-//! offsets 0, 1, 3, 10). Depth 3 with the full list is ~1.5 M transitions per offset (the fan-out
-//! of accepted calls is ~70), which is why the long histories use the narrow list.
+//! offsets 0, 1, 3, 10). Depth 3 with the full list is 0.8-1.6 M transitions per offset (the fan-out
+//! of accepted calls is ~70; done in the thorough tier for offsets 0 and 3), which is why the long
+//! histories use the narrow list.
 
 use num_bigint::BigInt;
 use soroban_sdk::testutils::Address as _;
@@ -953,11 +954,11 @@ fn main() {
     main_with(
         "C05",
         "model_checking",
-        "level-BFS over histories of the real fungible-vault example (over a Base asset; users U1,U2, donor D) per decimals offset o; seeds {empty, 3 assets donated to the empty vault} and {U1 deposited 2^k-7 then 2^(k-2)+3 donated, k=min(100,120-4o): products exceed i128}. WIDE worlds (depth 2): deposit/mint/withdraw/redeem with operator=owner=receiver and amounts {0,1,2,3,7,10,10^o+1,max_withdraw(+1),max_redeem(+1),i128::MAX}, operator!=owner (asset/share allowances) and/or receiver!=owner with {7 | max,max+1} (thorough: also 1, 10^o+1), donations {1,7,10^o+1}. DEEP worlds (depth 4; thorough 5 for o in {0,1,3,10}; big seed one less): deposit{1,7} mint{1,10^o+1} withdraw{1,max} redeem{1,max} per user, donate 7. Every call: preview and convert getter at the amount vs exact big-integer formula (fails iff result exceeds i128), return = preview, exact asset/share/allowance movement on exactly the named parties, rate (A+1)/(S+10^o) non-decreasing (cross-multiplied), rounding direction, above max refused / at max accepted, event contents, acting-alone windows. Every expanded state: all six conversion getters at every alphabet amount + 2^100+1 + i128::MAX, maxima <= owner's entitlement, and 8 round-trip shapes (real calls, rolled back) per user and amount. non-trivial = distinct (storage, acting-alone window) state reached through >=1 accepted call",
+        "level-BFS over histories of the real fungible-vault example (over a Base asset; users U1,U2, donor D) per decimals offset o; seeds {empty, 3 assets donated to the empty vault} and {U1 deposited 2^k-7 then 2^(k-2)+3 donated, k=min(100,120-4o): products exceed i128}. WIDE worlds (depth 2; thorough also depth 3 for o in {0,3} from the first seed pair): deposit/mint/withdraw/redeem with operator=owner=receiver and amounts {0,1,2,3,7,10,10^o+1,max_withdraw(+1),max_redeem(+1),i128::MAX}, operator!=owner (asset/share allowances) and/or receiver!=owner with {7 | max,max+1} (thorough: also 1, 10^o+1), donations {1,7,10^o+1}. DEEP worlds (depth 4; thorough 5 for o in {0,1,3,10}; big seed one less): deposit{1,7} mint{1,10^o+1} withdraw{1,max} redeem{1,max} per user, donate 7. Every call: preview and convert getter at the amount vs exact big-integer formula (fails iff result exceeds i128), return = preview, exact asset/share/allowance movement on exactly the named parties, rate (A+1)/(S+10^o) non-decreasing (cross-multiplied), rounding direction, above max refused / at max accepted, event contents, acting-alone windows. Every expanded state: all six conversion getters at every alphabet amount + 2^100+1 + i128::MAX, maxima <= owner's entitlement, and 8 round-trip shapes (real calls, rolled back) per user and amount. non-trivial = distinct (storage, acting-alone window) state reached through >=1 accepted call",
         |tier: Tier, r: &mut Runner| {
             let th = tier == Tier::Thorough;
             let mut offsets: Vec<u32> = tier.pick(vec![0, 1, 3, 10], (0..=10).collect());
-            // developer knobs (calibration / sensitivity runs only): C05_OFFSETS=3,10 C05_BUDGET=3600
+            // developer knobs (calibration / sensitivity runs only): C05_OFFSETS=3,10 C05_BUDGET=3600 C05_ONLY=<part of a world name>
             if let Ok(x) = std::env::var("C05_OFFSETS") {
                 offsets = x.split(',').filter_map(|s| s.parse().ok()).collect();
             }
@@ -967,16 +968,30 @@ fn main() {
             let budget: u64 = std::env::var("C05_BUDGET").ok().and_then(|s| s.parse().ok()).unwrap_or(tier.pick(42, 570));
             let left = || budget.saturating_sub(t0.elapsed().as_secs()).max(1);
             let tag = |a: &'static str, b: &'static str| if th { b } else { a };
+            let only = std::env::var("C05_ONLY").ok();
+            let run = |w: VaultW, depth: usize, r: &mut Runner| {
+                if only.as_ref().map(|x| w.name().contains(x.as_str())).unwrap_or(true) {
+                    r.world(&w, &Bounds::new(depth, left()));
+                }
+            };
             // full alphabet, short histories
             for &o in &offsets {
-                r.world(&VaultW { offset: o, deep: false, full: th, seeds: SMALL, tag: tag("wide", "wide-full") }, &Bounds::new(2, left()));
-                r.world(&VaultW { offset: o, deep: false, full: th, seeds: HUGE, tag: tag("wide-huge", "wide-full-huge") }, &Bounds::new(2, left()));
+                run(VaultW { offset: o, deep: false, full: th, seeds: SMALL, tag: tag("wide", "wide-full") }, 2, r);
+                run(VaultW { offset: o, deep: false, full: th, seeds: HUGE, tag: tag("wide-huge", "wide-full-huge") }, 2, r);
             }
             // narrow alphabet, long histories
             for &o in &offsets {
                 let d = if th && [0, 1, 3, 10].contains(&o) { 5 } else { 4 };
-                r.world(&VaultW { offset: o, deep: true, full: false, seeds: SMALL, tag: "deep" }, &Bounds::new(d, left()));
-                r.world(&VaultW { offset: o, deep: true, full: false, seeds: HUGE, tag: "deep-huge" }, &Bounds::new(tier.pick(3, 4), left()));
+                run(VaultW { offset: o, deep: true, full: false, seeds: SMALL, tag: "deep" }, d, r);
+                run(VaultW { offset: o, deep: true, full: false, seeds: HUGE, tag: "deep-huge" }, tier.pick(3, 4), r);
+            }
+            // thorough, last (so that a loaded machine truncates these first): full alphabet, length 3
+            if th {
+                for o in [0u32, 3] {
+                    if offsets.contains(&o) {
+                        run(VaultW { offset: o, deep: false, full: true, seeds: SMALL, tag: "wide-full-d3" }, 3, r);
+                    }
+                }
             }
             if let Some(rep) = r.report() {
                 let all = [
